@@ -39,6 +39,7 @@ CONSTANTS
     EvoCap,           \* upper clamp of the tried evolution: min(EvoCap, ...)            (64)
     LastEvo,          \* last evolution a Sum6 KES key can sign at                      (63)
     UMax,             \* stand-in for u64::MAX (saturating arithmetic)
+    RoundKeyUnique,   \* TRUE: the round refuses a key another party already holds (fix b34c3480b)
     KesAliasPastLast  \* TRUE: the KES library's verify(period) takes the right-most leaf
                       \* for every period >= LastEvo (kes-summed-ed25519 0.2.1: no range
                       \* check, Sum0 ignores the period), so a signature made at LastEvo
@@ -117,9 +118,13 @@ RegisterImpl(r, dist, registered) ==
 (* MithrilSignerRegistrationVerifier::verify builds a FRESH wrapper per call  *)
 (* (registered = {}); register_signer then inserts-or-replaces the row and    *)
 (* answers ExistingSigner when a row for the party was already there.         *)
+(* RoundKeyUnique (fix b34c3480b): register_signer then refuses a key that another party of   *)
+(* the round already holds; FALSE is the code before the fix.                                 *)
 RoundImpl(r, dist, store) ==
     LET v == RegisterImpl(r, dist, {}) IN
     IF ~v.ok THEN [resp |-> "invalid", store |-> store, party |-> "none"]
+    ELSE IF RoundKeyUnique /\ r.vk \in {store[p].vk : p \in DOMAIN store \ {v.party}}
+    THEN [resp |-> "invalid", store |-> store, party |-> "none"]
     ELSE [resp  |-> IF v.party \in DOMAIN store THEN "existing" ELSE "ok",
           store |-> [p \in DOMAIN store \cup {v.party} |->
                         IF p = v.party THEN [vk |-> r.vk, stake |-> v.stake] ELSE store[p]],
